@@ -11,7 +11,7 @@ from penman.tree import Tree
 
 from pv.gen import graphs, models, trees
 from pv.gen.base import pick
-from pv.harness import Hyp
+from pv.harness import Enum, Hyp
 from pv.props.common import fmt, noise_calls, short, tree_classes
 from pv.ref import graphm, interp
 from pv.ref.role import build_model, build_table, roles_for
@@ -284,14 +284,22 @@ def _cases(draw, large=False):
         g = draw(graphs.wf_graphs(spec, max_vars=4, role_pool=(fwd, inv), concepts=[c for c in concepts if not c.startswith('"')] + [None]))
         return {'src': 'built', 'g': g, 'model': spec, 'program': prog}
     j = draw(trees.wf_trees(spec, max_nodes=30 if large else 6, role_pool=(fwd, inv), concepts=concepts, emptyconcept=False, wide=8 if large else 3))
-    if table['reifications'] and draw(st.booleans()):
-        j = trees.reify_in_tree(draw, j, table, prob=(1, 3) if draw(st.booleans()) else (2, 3), tail=draw(st.integers(0, 2)) == 0)     # collapsible reified nodes written in the text
+    fav = prog in FAV
+    if table['reifications'] and (fav or draw(st.booleans())):
+        # collapsible reified nodes written in the text; with the favoured program orders more often along the rightmost path
+        j = trees.reify_in_tree(draw, j, table, prob=(1, 3) if draw(st.booleans()) else (2, 3), tail=draw(st.integers(0, 2 if not fav else 1)) == 0)
     if draw(st.integers(0, 7)) == 0:
         j = trees.add_decoy(draw, j, table)
     case = {'src': 'tree', 'tree': j, 'model': spec, 'program': prog, 'strip': draw(st.integers(0, 3)) == 0}
     if draw(st.integers(0, 3)) == 0:
         vs = interp.node_vars(interp.to_node(j))
         case['append'] = [[pick(draw, vs), pick(draw, fwd), draw(st.sampled_from(['new', '"n s"', '9'] + vs))]]
+    elif fav and table['reifications'] and draw(st.booleans()):
+        # a marker-less re-entrancy with a reifiable role (its orientation has to be worked out from the node contexts)
+        vs = interp.node_vars(interp.to_node(j))
+        rr = [r[0] for r in table['reifications'] if r[0] in fwd]
+        if rr and len(vs) >= 2:
+            case['append'] = [[pick(draw, vs), pick(draw, rr), pick(draw, vs)]]
     if draw(st.integers(0, 3)) == 0:
         case['top'] = draw(st.integers(0, 8))
     if draw(st.integers(0, 3)) == 0:
@@ -299,5 +307,37 @@ def _cases(draw, large=False):
     return case
 
 
+FAV_PROGRAMS = [['dereify_edges', 'reify_edges'], ['dereify_edges', 'reify_edges', 'dereify_edges'], ['reify_edges', 'dereify_edges', 'reify_edges'],
+                ['dereify_edges', 'indicate_branches'], ['dereify_edges', 'reify_attributes', 'reify_edges'], ['dereify_edges']]
+
+
+def _nested_chunks(tier):
+    n = 5 if tier == 'quick' else 9
+    return [{'i': i, 'n': n} for i in range(n)]
+
+
+def _nested_cases(ch):
+    """Reified relations nested in each other at the very end of the text (the last triple closes several nodes at once), with a
+    marker-less reifiable re-entrancy before or after them, under the program orders that collapse first and reify afterwards."""
+    table = build_table({'name': 'amr'})
+    reifs = table['reifications'][:ch['n']]
+    role1, c1, s1, t1 = reifs[ch['i']]
+    for role2, c2, s2, t2 in reifs:
+        for depth3 in (False, True):
+            for last in ('-', ['c', [['/', 'gamma']]]):
+                inner = [s2 + '-of', ['_2', [['/', c2], [t2, last]]]]
+                if depth3:
+                    inner = [s2 + '-of', ['_2', [['/', c2], [t2, ['d', [['/', 'delta'], [s1 + '-of', ['_3', [['/', c1], [t1, last]]]]]]]]]]
+                nested = [s1 + '-of', ['_', [['/', c1], [t1, ['b', [['/', 'beta'], inner]]]]]]
+                for where in (0, 1):
+                    re_ent = [role2, 'b']
+                    brs = [['/', 'alpha'], re_ent, nested] if where == 0 else [['/', 'alpha'], nested, re_ent]
+                    for prog in FAV_PROGRAMS:
+                        yield {'src': 'tree', 'tree': ['a', brs], 'model': {'name': 'amr'}, 'program': prog, 'strip': False}
+
+
 def stages(tier):
-    return [Hyp('programs', _cases, 8000, 200000), Hyp('programs-large', lambda: _cases(large=True), 200, 10000)]
+    return [Hyp('programs', _cases, 8000, 200000), Hyp('programs-large', lambda: _cases(large=True), 200, 10000),
+            Enum('nested-reifications-at-the-end', _nested_chunks, _nested_cases,
+                 'AMR: every pair of the first 5 (thorough: 9) reifications nested in each other 2 or 3 deep at the end of the text, a '
+                 'marker-less reifiable re-entrancy before or after, six collapse-first program orders')]
